@@ -14,6 +14,7 @@ type Tables struct {
 	RangeExempt        map[string]string   `json:"range_exempt"`        // function -> reason (exemption granted by a property statement)
 	Orders             []OrderSpec         `json:"orders"`
 	SchedAllowed       map[string]string   `json:"sched_allowed"`
+	OrderedProducers   []OrderedProducer   `json:"ordered_producers"` // packages whose results feed an order-sensitive selection
 	Floors             map[string]int      `json:"floors"`
 	// E6
 	Listeners     []ListenerSpec      `json:"listeners"`
